@@ -44,6 +44,8 @@ type FnSpec struct {
 	Pure     bool
 	Requires []Clause
 	Ensures  []Clause
+	// Preserves: expressions whose value the callback is assumed not to change
+	Preserves []Clause
 }
 
 type GhostHook struct {
@@ -96,6 +98,9 @@ type TypeInv struct {
 	Type  string
 	Invs  []Clause
 	Ghost []SpecParam
+	// Chans: per channel-typed field, what holds of every element x sent on it (asserted at
+	// sends, assumed at receives)
+	Chans map[string]Clause
 }
 
 type ContractSet struct {
@@ -217,6 +222,24 @@ func (cs *ContractSet) LoadContractFile(path, pkgPath string) error {
 			cur, curLemma, curFnSpec = nil, nil, nil
 			curType = &TypeInv{Pkg: pkgPath, Type: strings.TrimSpace(rest)}
 			cs.TypeInvs[pkgPath+"."+curType.Type] = curType
+		case "chan":
+			// chan <field>: <predicate over x>
+			if curType == nil {
+				return fail(ll.line, "chan outside a type block")
+			}
+			i := strings.Index(rest, ":")
+			if i < 0 {
+				return fail(ll.line, "chan <field>: <predicate>")
+			}
+			ex, err := ParseExpr(rest[i+1:])
+			if err != nil {
+				return fail(ll.line, "%v", err)
+			}
+			if curType.Chans == nil {
+				curType.Chans = map[string]Clause{}
+			}
+			src := strings.TrimSpace(rest[i+1:])
+			curType.Chans[strings.TrimSpace(rest[:i])] = Clause{Label: shortLabel(src), E: ex, Src: src}
 		case "ghostvar", "set":
 			eq := strings.Index(rest, "=")
 			if eq < 0 || cur == nil {
@@ -250,6 +273,17 @@ func (cs *ContractSet) LoadContractFile(path, pkgPath string) error {
 		case "assumeframe":
 			if cur != nil {
 				cur.AssumeFrame = true
+			}
+		case "preserves":
+			if curFnSpec == nil {
+				return fail(ll.line, "preserves outside an fnspec block")
+			}
+			for _, part := range splitCommaTop(rest) {
+				ex, err := ParseExpr(part)
+				if err != nil {
+					return fail(ll.line, "%v in preserves %q", err, part)
+				}
+				curFnSpec.Preserves = append(curFnSpec.Preserves, Clause{Label: shortLabel(strings.TrimSpace(part)), E: ex, Src: strings.TrimSpace(part)})
 			}
 		case "requires", "ensures", "invariant", "assert", "assume", "wakes":
 			label := ""
